@@ -52,7 +52,8 @@ SCENARIOS = ["doc_date", "doc_date_ctor", "uncertainty", "sec_card", "prop_card"
              "merge_unconvertible_empty_typed", "link_bad_after_good", "link_merge_refused",
              "include_merge_refused", "include_bad_after_good", "link_difftype_refused",
              "merge_difftype_deep", "link_difftype_deep", "merge_strict_multiline", "merge_casetype",
-             "relink_after_target_edit"]
+             "relink_after_target_edit", "ctor_with_dependency", "extend_after_rename",
+             "link_to_document", "merge_text_uncertainty"]
 
 
 def _secs(doc):
@@ -250,6 +251,56 @@ def scenario_body(case):
                 lk.link = "/rl-target"
             else:
                 doc.finalize()
+        elif name == "ctor_with_dependency":
+            # a constructor that validates its arguments after it attached the object must not leave it there
+            holder = odml.Section(name="dep-holder", type="t", parent=doc)
+            odml.Property(name="target", values=[[1, 2], [1.5], ["2020-01-01"], [True], ["x"]][b % 5],
+                          dtype=["int", "float", "date", "boolean", "string"][b % 5], parent=holder)
+            universe = snap.reachable([doc, other])
+            before = snap.identity(universe)
+            dep = ["target", "missing", 5, "target"][(b // 5) % 4]
+            depval = ["not convertible", "", None, "2", 7, [1]][(b // 3) % 6]
+            odml.Property(name="dependent", values=[1], parent=holder, dependency=dep, dependency_value=depval)
+        elif name == "extend_after_rename":
+            # whatever a container remembers about its children's names has to follow renames
+            for cont in (doc, odml.Section(name="ear-holder", type="t", parent=doc)):
+                cont.extend([odml.Section(name="ear-%d" % j, type="t") for j in range(2)])
+                cont.sections["ear-0"].name = "ear-renamed"
+            cont = doc if b % 2 else doc.sections["ear-holder"]
+            ok1 = odml.Section(name="ear-ok1", type="t", parent=other)
+            ok2 = odml.Section(name="ear-ok2", type="t")
+            clash = odml.Section(name="ear-renamed", type="u")
+            universe = snap.reachable([doc, other]) + [ok2, clash]
+            before = snap.identity(universe)
+            cont.extend([ok1, ok2, clash])
+        elif name == "link_to_document":
+            # a path that resolves to the Document is no link target
+            top = odml.Section(name="ltd-top", type="t", parent=doc)
+            odml.Property(name="own", values=[1], parent=top)
+            sub = odml.Section(name="ltd-sub", type="t", parent=top)
+            universe = snap.reachable([doc, other])
+            before = snap.identity(universe)
+            if b % 3 == 0:
+                top.link = ".."
+            elif b % 3 == 1:
+                sub.link = "../.."
+            else:
+                top.link = "/"
+        elif name == "merge_text_uncertainty":
+            # an uncertainty given to the constructor as text that is no number is kept as it is (the
+            # repository's tests pin this); a merge that cannot take it over has to say so before it starts
+            dest = odml.Section(name="mtu", type="t", parent=doc)
+            odml.Property(name="p", values=[1], parent=dest)
+            src = odml.Section(name="mtu", type="t", definition="from src", parent=other)
+            odml.Property(name="before", values=[1], parent=src)
+            odml.Property(name="p", values=[2], uncertainty=["abc", "n/a", "+-3"][b % 3], value_origin="vo",
+                          unit="mV", parent=src)
+            universe = snap.reachable([doc, other])
+            before = snap.identity(universe)
+            if b % 2:
+                dest.merge(src, strict=bool(b % 4 == 1))
+            else:
+                dest.properties["p"].merge(src.properties["p"], strict=bool(b % 4 == 0))
         elif name == "merge_wrong_kind":
             if b % 2:
                 other.properties[0].merge(sec)
@@ -343,7 +394,7 @@ def scenario_cases(name, max_depth=2):
         "doc": S.doc_spec(max_depth=max_depth, max_secs=2, max_props=2, tuples=False,
                           text_classes=["plain", "comma"]),
         "scenario": st.just(name),
-        "a": st.integers(0, 7), "b": st.integers(0, 11)})
+        "a": st.integers(0, 7), "b": st.integers(0, 59)})
 
 
 def plan(tier):
